@@ -332,6 +332,11 @@ def enumerate_faults(spec, rng, pairs=0):
     for o in offs:
         if o <= n:
             F.append({'k': 'read', 'e': 'EIO', 'at': o})
+    later = pieces_of(spec['data'].encode('latin-1'))[1:]
+    for k, piece in enumerate(later):
+        # the same fault kinds on the second and third source: by then an object built from the earlier ones exists
+        F += [{'k': 'stat', 'e': 'ENOENT', 'src': k + 1}, {'k': 'openr', 'e': 'EACCES', 'src': k + 1}, {'k': 'input_is_dir', 'src': k + 1},
+              {'k': 'read', 'e': 'EIO', 'at': 0, 'src': k + 1}, {'k': 'read', 'e': 'EIO', 'at': len(piece) // 2, 'src': k + 1}]
     if spec['outpath']:
         F += [{'k': 'openw', 'e': 'ENOENT'}, {'k': 'openw', 'e': 'EACCES'}, {'k': 'openw', 'e': 'EISDIR'}, {'k': 'openw', 'e': 'EROFS'}]
     if spec['mode'] == 'cli':
@@ -356,10 +361,14 @@ def build_plan(spec, fault_in, tag, junk=None):
     kind = 'f'
     stdin = ('tty', b'')
     outpath = spec['outpath']
+    dirsrc = set()
     for fault in flist(fault_in):
         k = fault['k']
         if k == 'input_is_dir':
-            kind = 'd'
+            if fault.get('src'):
+                dirsrc.add(fault['src'])
+            else:
+                kind = 'd'
         elif k == 'stdin':
             v = fault['v']
             if v == 'data':
@@ -371,14 +380,15 @@ def build_plan(spec, fault_in, tag, junk=None):
     pieces = pieces_of(data)
     more = ['in%d.dat' % k for k in range(1, len(pieces))]
     p.files.append((infile, kind, pieces[0] if kind == 'f' else b''))
-    for fn, piece in zip(more, pieces[1:]):
-        p.files.append((fn, 'f', piece))
+    for j, (fn, piece) in enumerate(zip(more, pieces[1:])):
+        p.files.append((fn, 'd', b'') if (j + 1) in dirsrc else (fn, 'f', piece))
     for fault in flist(fault_in):
         k = fault['k']
+        target = infile if not fault.get('src') or fault['src'] > len(more) else more[fault['src'] - 1]
         if k in ('stat', 'openr'):
-            p.faults.append((infile, k, fault['e'], 0))
+            p.faults.append((target, k, fault['e'], 0))
         elif k == 'read':
-            p.faults.append((infile, 'read', fault['e'], fault['at']))
+            p.faults.append((target, 'read', fault['e'], fault['at']))
         elif k == 'openw':
             if fault['e'] == 'ENOENT':
                 outpath = 'nodir/' + outpath.split('/')[-1]
@@ -417,8 +427,8 @@ def fault_name(f):
     if f['k'] == 'stdin':
         return 'stdin:' + f['v']
     if f['k'] == 'input_is_dir':
-        return 'input_is_dir'
-    return '%s:%s' % (f['k'], f['e']) + (('@%d' % f['at']) if 'at' in f else '')
+        return 'input_is_dir' + (('#src%d' % f['src']) if f.get('src') else '')
+    return '%s:%s' % (f['k'], f['e']) + (('@%d' % f['at']) if 'at' in f else '') + (('#src%d' % f['src']) if f.get('src') else '')
 
 
 def plans_of(spec):
@@ -662,7 +672,7 @@ def job_stats(spec, results):
     for m in spec['muts']:
         st['mutations'][m] = 1
     for f in spec['faults']:
-        k = fault_name(f).split('@')[0]
+        k = __import__('re').sub(r'@\d+', '', fault_name(f))
         st['faults_injected'][k] = st['faults_injected'].get(k, 0) + 1
     return st
 
